@@ -243,7 +243,8 @@ class Run:
         accepted_sc = 0
         rounds = 0
         gen = 0
-        while scs and rounds < max_rounds:
+        known_rounds = 0
+        while scs and rounds < max_rounds and known_rounds < 60:
             rounds += 1
             p = os.path.join(self.work, f"{label}-r{rounds}.ndjson")
             flat = [e for s in scs for e in s]
@@ -273,7 +274,9 @@ class Run:
             cls = {"checks": names, "event": ev, "scenario": scs[bad], "index": idx - pos}
             if classify:
                 cls.update(classify(cls) or {})
-            self.violation(scs[bad], desc, cls)
+            if not self.violation(scs[bad], desc, cls):
+                rounds -= 1          # a listed known finding does not use up the rejection budget
+                known_rounds += 1
             accepted_sc += bad
             scs = scs[bad + 1:]
         if scs:
